@@ -43,7 +43,7 @@ def check(model, R, tier):
                     'Tensor-method parameter reaches the kernel / functional parameter of the same role; dims are normalised before Python-level index arithmetic (typestate); validation guards raise and dominate the kernel call; '
                     'the operator and reflected-operator table as composition trees; independent iterators; constructor plumbing. NumPy / PyTorch value semantics are not decided.',
         assumptions=['NumPy signatures frozen in sa/props/c05.py', 'parameter-name roles (dim = axis, dim0/dim1 = axis1/axis2, ...)'],
-        technique='call-binding against a frozen signature table + axis typestate + CFG dominance of raising guards + composition-tree comparison')
+        technique='call-binding against a frozen signature table + axis typestate + guard tables over raise sites and path conditions + composition-tree comparison + kernel evaluation on concrete shape cases')
 
 
 # ------------------------------------------------------------------------------------------------ DELEGATE
